@@ -17,14 +17,14 @@ import tempfile
 import zipfile
 import xml.dom.minidom
 
-from mc import world
+from mc import tmlite, world
 
 ID = 'C20'
 LEVEL = 'exploration'
 
 MNEMONICS = ['ld', 'ldx', 'l', 'mov', 'mov.b', 'add', 'a2', 'x_1m', 'Jmp', '_brk', 'ld_']
 MACROS = ['mac', 'ldm', 'm.x', 'PUSH2', 'mac_']
-REGISTERS = ['a', 'x_1', 'sp', 'r1', '_t']
+REGISTERS = ['a', 'x_1', 'sp', 'r1', '_t', 'b0', 'AH']      # b0 / AH also read as a binary / hexadecimal literal
 PREDEFINED = ['KC', 'K_2', 'zn']
 COMPILER_DIRECTIVES = ['org', 'memzone', 'align']
 DATA_DIRECTIVES = ['fill', 'zero', 'zerountil', 'byte', '2byte', '4byte', '8byte', 'cstr', 'asciiz']
@@ -130,6 +130,46 @@ def check_category(name, pattern, words, others, ci=True):
     return probs
 
 
+LITERALS = ['$1F', 'b101', '17', '0AH', '%11']
+
+
+def context_checks(tokenize, vocab, target):
+    """Whole statement lines through the grammar as the editor applies it (rule stack, rule order): the mnemonic must come out
+    as an instruction / macro, every configured register in operand position as a register, numeric literals as numbers."""
+    mn, mac, regs, pre = vocab
+    probs = []
+    heads = [(m, 'variable.function.instruction') for m in mn[:2]] + [(m, 'variable.function.macro') for m in mac[:1]]
+    for head, hscope in heads:
+        for hf in (head, head.upper()):
+            lines = []
+            for r in regs:
+                for rf in (r, r.upper(), r.lower()):
+                    lines.append((f'{hf} {rf}, {rf}', [(len(hf) + 1, rf), (len(hf) + 3 + len(rf), rf)], 'variable.language.register'))
+                    lines.append((f'    {hf} [{rf}]', [(len(hf) + 6, rf)], 'variable.language.register'))
+            for lit in LITERALS:
+                if lit.lower() not in {r.lower() for r in regs}:
+                    lines.append((f'{hf} {lit}', [(len(hf) + 1, lit)], 'constant.numeric'))
+            if not lines:
+                lines.append((f'{hf}', [], None))
+            for line, spans, want in lines:
+                try:
+                    toks = tokenize(line)
+                except tmlite.GrammarError as e:
+                    probs.append(f'{target} grammar cannot be applied to {line!r}: {e}')
+                    continue
+                h0 = len(line) - len(line.lstrip())
+                got = tmlite.scope_of(toks, h0, h0 + len(hf))
+                if got is None or got[2] != hscope or (got[0], got[1]) != (h0, h0 + len(hf)):
+                    probs.append(f'{target} grammar applied to {line!r}: {hf!r} is classified as {got and got[2]!r}, not as {hscope}')
+                for start, word in spans:
+                    assert line[start:start + len(word)] == word, (line, start, word)
+                    got = tmlite.scope_of(toks, start, start + len(word))
+                    ok = got is not None and got[2].startswith(want) and (got[0], got[1]) == (start, start + len(word))
+                    if not ok:
+                        probs.append(f'{target} grammar applied to {line!r}: operand {word!r} is classified as {got and got[2]!r}, not as {want}')
+    return probs
+
+
 def inspect_vscode(root, vocab):
     mn, mac, regs, pre = vocab
     probs = []
@@ -187,6 +227,7 @@ def inspect_vscode(root, vocab):
     for item in rep['operators']['patterns']:
         if item.get('name') == 'keyword.operator.word':
             probs += check_category('expression function', item['match'], FUNCTIONS, [], ci=False)
+    probs += context_checks(lambda line: tmlite.tokenize_textmate(g, line), vocab, 'vscode')
     return probs
 
 
@@ -239,6 +280,7 @@ def inspect_sublime(root, vocab):
                             list(mn) + list(mac) + list(regs), ci=False)
     probs += check_category('directive', ctx['compiler_directives'][0]['match'], ['.' + d for d in COMPILER_DIRECTIVES], [], ci=False)
     probs += check_category('data directive', ctx['data_types_directives'][0]['match'], ['.' + d for d in DATA_DIRECTIVES], [], ci=False)
+    probs += context_checks(lambda line: tmlite.tokenize_sublime(syntax, line), vocab, 'sublime')
     if syntax.get('file_extensions') != ['vasm']:
         probs.append(f'file_extensions is {syntax.get("file_extensions")!r}, the ISA declares vasm')
     return probs
